@@ -418,6 +418,24 @@ def run_real_case(case):
             shutil.rmtree(d, ignore_errors=True)
         all_ok = all(st_ == 0 for st_ in (case['status'] + [0] * n)[:n])
         what = 'delivery program statuses %r' % case['status'][:n]
+    elif case['real'] == 'smtp':
+        # the proxying queue over the real SMTP relay: the next hop answers some stage with a reply of the wrong class
+        from slimta.relay.smtp.static import StaticSmtpRelay
+        from vf.peers import StagePeer, StubClientContext, kill_relay
+        peers = []
+
+        def creator(address):
+            p_ = StagePeer(case['script'], exts=['8BITMIME', 'PIPELINING'] if case.get('pipelining') else ['8BITMIME'])
+            peers.append(p_)
+            return p_
+        relay = StaticSmtpRelay('peer.example', 25, socket_creator=creator, context=StubClientContext(), ehlo_as='relay.example')
+        try:
+            fr = _drive_edge(case['edge'], ProxyQueue(relay), rcpts)
+        finally:
+            kill_relay(relay)
+        taken = set(a for p_ in peers for (_, _, acc, _) in p_.accepted_msgs for a in acc)
+        all_ok = taken == set(rcpts)
+        what = 'the next hop (script %r) accepted %r of %r' % (case['script'], sorted(taken), rcpts)
     else:
         from slimta.diskstorage import DiskStorage
         from vf.props import c04
@@ -463,9 +481,12 @@ def run_real_case(case):
     if fr == '2' and not all_ok:
         out.append(('C02:success-reply-without-custody:%s:%s' % (case['edge'], case['real']),
                     '%s: success reply although %s' % (desc, what)))
+    if fr is not None and fr not in '245' and not all_ok:
+        out.append(('C02:failure-answered-with-a-reply-of-class-%s:%s:%s' % (fr, case['edge'], case['real']),
+                    '%s: the client must get a 4xx/5xx reply: %s' % (desc, what)))
     if fr is not None and fr != '2' and all_ok and not (case.get('ioerr') and fired):
         out.append(('C02:failure-reply-although-custody-taken:%s:%s' % (case['edge'], case['real']), '%s: reply class %s' % (desc, fr)))
-    nt = (case['real'] == 'pipe' and not all_ok) or bool(case.get('ioerr') and fired)
+    nt = (case['real'] in ('pipe', 'smtp') and not all_ok) or bool(case.get('ioerr') and fired)
     return out, nt
 
 
@@ -478,6 +499,11 @@ def real_table():
                     status[bad] = st_
                     yield {'real': 'pipe', 'edge': edge, 'nrcpt': n, 'status': status}
             yield {'real': 'pipe', 'edge': edge, 'nrcpt': n, 'status': [0] * n}
+        for n in (1, 2):
+            for pipelining in (True, False):
+                for script in ({}, {'DATA': '250'}, {'DATA': '251'}, {'DATA': '150'}, {'MAIL': '354'}, {'MAIL': '150'}, {'RCPT0': '354'},
+                               {'EOD': '354'}, {'EOD': '150'}, {'EOD': '4xx'}, {'RCPT0': '5xx'}, {'MAIL': '4xx'}, {'DATA': '5xx'}):
+                    yield {'real': 'smtp', 'edge': edge, 'nrcpt': n, 'pipelining': pipelining, 'script': script}
         for policies in ([], ['split'], ['domsplit']):
             for n in (1, 2, 3):
                 yield {'real': 'disk', 'edge': edge, 'nrcpt': n, 'policies': policies, 'ioerr': None}
